@@ -115,7 +115,7 @@ def main(tier):
         for rec in results:
             origin = rec[0]
             key = (json.dumps(rec[1]), rec[2], rec[3], rec[4])
-            if key in dis_keys or origin in ('corpus', 'random') or r.random() < (0.06 if tier == 'quick' else 0.15):
+            if key in dis_keys or origin in ('corpus', 'random', 'align-nest', 'shared') or r.random() < (0.06 if tier == 'quick' else 0.15):
                 sample.append(rec)
         checked = 0
         viol = 0
@@ -132,11 +132,15 @@ def main(tier):
                 detail = 'finding %s is not listed as open' % fid
             viol += 1
             if viol <= 3:
-                small = docgen.shrink(t, lambda c: oracle(c, smart, w, frac, __import__('engine').impl_layout(
-                    docgen.to_real(c), smart, w, frac))[0] == 'violation')
+                hist = EC.history(t, smart, w, frac)
+                sh = origin == 'shared'
+                small = docgen.shrink(t, lambda c: oracle(c, smart, w, frac, EC.impl_with_history(
+                    c, hist, smart, w, frac, sh))[0] == 'violation')
+                if oracle(small, smart, w, frac, EC.impl_with_history(small, [], smart, w, frac, sh))[0] == 'violation':
+                    hist = []
                 run.violation({'kind': 'oracle', 'term': small, 'original_term': t, 'smart': smart, 'width': w,
-                               'ribbon_frac': frac, 'impl': __import__('engine').impl_layout(
-                                   docgen.to_real(small), smart, w, frac), 'detail': str(detail)})
+                               'ribbon_frac': frac, 'shared': sh, 'history': hist,
+                               'impl': EC.impl_with_history(small, hist, smart, w, frac, sh), 'detail': str(detail)})
         # annotation transparency on the random documents
         tchecked = 0
         for origin, t, smart, w, frac, rw, res in sample:
@@ -171,7 +175,8 @@ def replay(path):
         return 1
     from engine import impl_layout
     t = EC.detuple(p['term'])
-    res = impl_layout(docgen.to_real(t), p['smart'], p['width'], p['ribbon_frac'])
+    res = EC.impl_with_history(t, [tuple(h) for h in p.get('history', [])], p['smart'], p['width'], p['ribbon_frac'],
+                               p.get('shared'))
     verdict, detail = oracle(t, p['smart'], p['width'], p['ribbon_frac'], res)
     print('term:', t)
     print('impl:', res)
